@@ -13,6 +13,7 @@ Leg B: correspondence, ONE PROCESS PER HISTORY (the global default can be set on
 Leg C: oracle = the specification (a stack per thread + a write-once cell), computed HERE from the op list, against who
        actually received each emission / what get_default, Dispatch::default-style queries and get_current returned."""
 import os
+import sys
 
 import vlib
 from vlib import Report, coq_prove
@@ -24,7 +25,7 @@ ALL_PASS = (5, [0, 1, 2, 3], 0, 0)
 # ------------------------------------------------------------------------------------------------
 # generator
 
-def gen_case(rng, pool, malformed=False):
+def gen_case(rng, pool, malformed=False, init=False):
     nthreads = rng.choice([1, 2, 2, 3, 3, 4])
     ncols = rng.randint(2, 5)
     nops = rng.randint(6, 36)
@@ -44,7 +45,12 @@ def gen_case(rng, pool, malformed=False):
     glob_at = None if rng.random() < 0.25 else rng.randint(created, nops)
     while len(ops) < nops:
         if glob_at is not None and len(ops) >= glob_at and not gset and handle:
-            ops.append(("setglobal", rng.randrange(nthreads), rng.choice(sorted(handle))))
+            if init and created < ncols and rng.random() < 0.7:
+                # the public wrapper: tracing-subscriber's try_init on a fresh collector — must behave exactly like set_global_default
+                ops.append(("tryinit", rng.randrange(nthreads)))
+                created += 1
+            else:
+                ops.append(("setglobal", rng.randrange(nthreads), rng.choice(sorted(handle))))
             gset = True
             continue
         r = rng.random()
@@ -70,7 +76,11 @@ def gen_case(rng, pool, malformed=False):
             ops.append(("close", t, k))
             depth[t] -= 1
         elif r < 0.46 and handle and gset:
-            ops.append(("setglobal", t, rng.choice(sorted(handle))))   # a second attempt must fail
+            if init and created < ncols and rng.random() < 0.5:
+                ops.append(("tryinit", t))                             # a second attempt must fail (and its collector dies)
+                created += 1
+            else:
+                ops.append(("setglobal", t, rng.choice(sorted(handle))))   # a second attempt must fail
         elif r < 0.50 and created:
             # an emission whose receiving collector's callback panics (caught) and/or emits re-entrantly — on whatever path the
             # thread is on (fast: no scope anywhere; slow: inside its own scope, or through the global default while another
@@ -85,6 +95,16 @@ def gen_case(rng, pool, malformed=False):
                 ops.append(("getdefault", t, None))
             elif rng.random() < 0.2:
                 ops.append(("getcurrent", t))
+        elif r < 0.515 and handle and len(ops) > created + 2 and not malformed:
+            # a thread exits while a DefaultGuard of its innermost scope is owned by a thread-local that outlives tracing-core's own
+            cand = [u for u in range(nthreads) if any(depth[v] for v in range(nthreads) if v != u)]
+            if cand and rng.random() < 0.8:
+                t = rng.choice(cand)
+            ops.append(("exitguard", t, rng.choice(sorted(handle)) + 1))
+            depth[t] = 0
+            for u in range(nthreads):
+                if u != t and depth[u] > 0 and rng.random() < 0.8:
+                    ops.append(("emit", u, rng.choice(events)))
         elif r < 0.53 and handle and len(ops) > created + 2 and not malformed:
             # a thread exits; its thread-local destructors open scopes (one of them after tracing-core's own thread-local is gone).
             # Prefer a thread without scopes while ANOTHER thread holds one, then let the others emit.
@@ -216,6 +236,20 @@ class Spec:
                 # nested, documented); that the thread is unaffected AFTERWARDS is judged by every later op.
                 return {"recv": [d - 1] if acc else [], "cur": d, "outer_only": 1, "panic": int(acc and o[3] in (1, 3))}
             return {"r": int(acc), "cur": d}
+        if k == "tryinit":
+            c = self.created
+            self.created += 1
+            if c < len(self.cols):
+                self.flags[c] = self.cols[c][2] != 1
+            if self.glob is None:
+                self.glob = c
+                return {"c": c, "ok": 1}
+            return {"c": c, "ok": 0}
+        if k == "exitguard":
+            if not self.valid(o[2]):
+                return {"bad": 1}
+            self.stack[o[1]] = []       # the thread is gone with all its scopes; nothing else may change for anybody
+            return {}
         if k == "exit":
             if not self.valid(o[2]):
                 return {"bad": 1}
@@ -275,7 +309,8 @@ def oracle(pool, case, recs):
         if "ok" in e:
             judged += 1
             if r.get("ok") != e["ok"]:
-                vio.append(("set_global_default returned %s, a write-once cell says %s" % (r.get("ok"), e["ok"]), i, False))
+                vio.append(("%s returned %s, a write-once cell says %s" % ("SubscriberInitExt::try_init" if k == "tryinit" else "set_global_default",
+                                                                              r.get("ok"), e["ok"]), i, False))
         if "d" in e:
             judged += 1
             if r.get("d") != e["d"]:
@@ -314,9 +349,9 @@ def nontrivial(case):
             return True
         if o[0] == "setglobal" and used:
             return True
-        if o[0] in ("open", "emit", "getdefault", "getcurrent", "panic", "emitcb", "exit"):
+        if o[0] in ("open", "emit", "getdefault", "getcurrent", "panic", "emitcb", "exit", "exitguard"):
             used = True
-        if o[0] == "exit":
+        if o[0] in ("exit", "exitguard"):
             seen_close = True
         if o[0] == "emitcb":
             seen_close = True       # an emission / lookup after a callback that panicked or emitted is non-trivial too
@@ -329,6 +364,13 @@ def spec_rows_vs_coq(case, spec_rows, coq_spec):
     for i, (o, e, pos) in enumerate(zip(case["ops"], spec_rows, idx)):
         if o[0] == "close" and o[2] != 0:
             return None         # Model.aspec is only meant for properly nested histories (it ignores k)
+        if o[0] == "exitguard":
+            continue                         # closes / an open / a close: all "any" (or refused no-ops) for the specification
+        if o[0] == "tryinit":
+            row = coq_spec[pos[1]]
+            if row != [1, e["ok"]]:
+                return {"op_index": i, "python": e, "coq": row, "want": [1, e["ok"]]}
+            continue
         if o[0] == "exit":
             if "bad" in e:
                 continue
@@ -529,6 +571,19 @@ def run(ctx):
             malformed = (i % 8 == 7)
             cases[("m%d" if malformed else "g%d") % i] = gen_case(ctx.rng, pool, malformed)
     good = explore(ctx, rep, fx, "debug", binpath, pool, smax, cases)
+    if not ctx.replay or any(o[0] == "tryinit" for c in cases.values() for o in c["ops"]):
+        # the public wrapper of set_global_default (tracing-subscriber's SubscriberInitExt::try_init): its own build of the harness
+        sys.path.insert(0, os.path.join(vlib.VERIF, "translators"))
+        import dispatch_shape
+        ti = dispatch_shape.read_try_init(ctx.repo)
+        rep.tie("translator:tracing-subscriber/src/util.rs:try_init", not ti, "; ".join(ti), ti[:1] or None)
+        b3, info3 = D.build(ctx, rep, variant="init")
+        if b3 is not None:
+            if ctx.replay:
+                extra = cases
+            else:
+                extra = {"init:%s%d" % ("m" if i % 8 == 7 else "g", i): gen_case(ctx.rng, pool, i % 8 == 7, init=True) for i in range(1200 if not ctx.thorough() else 5000)}
+            explore(ctx, rep, fx, "init", b3, info3["pool"], info3["static_max"], extra)
     if ctx.thorough() and not ctx.replay:
         b2, info2 = D.build(ctx, rep, release=True)
         if b2 is not None:
